@@ -55,7 +55,7 @@ def build(idx, cfgs, prefix, spec_fn, per_file=100, select=None, pid=None):
                 if key in seen: seen[key].meta['covers'].append('%s:%s' % (cfg, f['key'])); continue
                 n += 1
                 lem = Lemma('%s_%d' % (prefix, n), sp['vars'], sp['lhs'], sp['rhs'], tactic=sp.get('tactic', 'solve_struct'), meta={'cfg': cfg, 'key': f['key'], 'file': f['file'], 'fid': f['fid'], 'did': f['did'], 'covers': ['%s:%s' % (cfg, f['key'])], 'spec': sp.get('spec', ''), 'fixed': sp.get('fixed', {})})
-                lem.ty = sp.get('ty', 'res (valO O)'); lem.ops = sp.get('ops', 'O'); lem.intstd = sp.get('intstd', False); lem.mode = sp.get('mode')
+                lem.ty = sp.get('ty', 'res (valO O)'); lem.ops = sp.get('ops', 'O'); lem.intstd = sp.get('intstd', False); lem.mode = sp.get('mode'); lem.pre = sp.get('pre')
                 seen[key] = lem; order.append(lem)
     nfiles = max(1, (len(order) + per_file - 1) // per_file)   # round-robin so that slow lemmas of one type spread over all workers
     for k, lem in enumerate(order): files.setdefault('%s_%03d' % (prefix.capitalize(), k % nfiles), []).append(lem)
